@@ -25,10 +25,10 @@ Print Assumptions C25_print_unambiguous_fixed_ctx.
 
 (* finding F22: the printer as it is changes or destroys the expression; one computed witness
    per class: a - (b - c), (a ** b) ** c, a / (b * c), (a if b else c) + 1, a < b < c,
-   (a < b) < c, lambda q: q, (a,), (a + b).c, (-1) ** a *)
+   (a < b) < c, lambda q: q, (a,), (a + b).c, (-1) ** a, [a] * b (printed [a, b]) *)
 Theorem C25_print_unambiguous_refuted :
   bad w_sub /\ bad w_pow /\ bad w_divmul /\ bad w_cond /\ bad w_casc /\ bad w_cmpcmp /\
-  bad w_lam /\ bad w_tup /\ bad w_attr /\ bad w_negpow.
+  bad w_lam /\ bad w_tup /\ bad w_attr /\ bad w_negpow /\ bad w_seqmul.
 Proof. exact old_refuted. Qed.
 Print Assumptions C25_print_unambiguous_refuted.
 
